@@ -124,6 +124,8 @@ static void pvtmix_scenario(int idx);
 static void attach_scenario(int idx);
 static void fullq_scenario(int idx);
 static void latesend_scenario(int idx);
+static void earlysend_scenario(int idx);
+static void stopsend_scenario(int idx);
 #include "c05_variants.h"
 
 /* ---- the pool virtual thread carries a message AND a user event at the same time, while the worker(s) are
@@ -509,4 +511,80 @@ latesend_scenario(int idx) {
 	}
 	for (k = 1; k < ls_n; k ++)
 		if (ls_order[k] < ls_order[k - 1]) sc_fail("order-violated", "message #%d ran after #%d", ls_order[k], ls_order[k - 1]);
+}
+
+
+/* ---- messages sent to threads that were created a moment ago and have not run yet (state STARTING counts as
+ * running: the sends are accepted), then tp_shutdown(): the threads start, find the messages in front of the
+ * shutdown message and must run them ---- */
+static void
+earlysend_scenario(int idx) {
+	const mvar_t *v = &variants[idx];
+	int k, rc, lrc[3];
+	tpt_p dst;
+
+	cur = v;
+	rc = tpc_create(v->W);
+	if (0 != rc || NULL == tpc_tp) sc_fail("harness", "tp_create rc=%d", rc);
+	rc = tp_threads_create(tpc_tp, 0);
+	if (0 != rc) sc_fail("harness", "tp_threads_create rc=%d", rc);
+	dst = tp_thread_get(tpc_tp, (size_t)(v->W - 1));
+	for (k = 0; k < 3; k ++)
+		lrc[k] = tpt_msg_send(dst, NULL, 0, ls_item_cb, (void *)(intptr_t)k);
+	tp_shutdown(tpc_tp);
+	sc_wait_quiescent();
+	for (k = 0; k < 3; k ++) {
+		if (0 == lrc[k] && 0 == ls_runs[k]) sc_fail("message-lost", "message #%d was accepted by a thread that had just been created, never ran", k);
+		if (0 == lrc[k] && ls_runs[k] > 1) sc_fail("message-duplicated", "message #%d ran %d times", k, ls_runs[k]);
+		if (0 != lrc[k] && 0 != ls_runs[k]) sc_fail("failed-send-ran-callback", "message #%d: send returned %d, callback ran", k, lrc[k]);
+	}
+	for (k = 1; k < ls_n; k ++)
+		if (ls_order[k] < ls_order[k - 1]) sc_fail("order-violated", "message #%d ran after #%d", ls_order[k], ls_order[k - 1]);
+}
+
+/* ---- sends to a thread that has left its loop and sits in its stop hook: they are either refused and never run, or
+ * (FORCE / FAIL_DIRECT) run once in the caller ---- */
+static volatile int stop_gate = 0, in_stop_hook = 0;
+static int ss_target = -1;
+static void
+ss_stop_extra(tpt_p tpt) {
+	if ((int)tpt_get_num(tpt) != ss_target) return;
+	in_stop_hook = 1;
+	sc_gate_wait(&stop_gate, "stop_gate");
+}
+static int ss_runs[3], ss_direct[3], ss_in_send = -1;
+static void
+ss_item_cb(tpt_p tpt, void *udata) {
+	int k = (int)(intptr_t)udata;
+	(void)tpt;
+	ss_runs[k] ++;
+	if (ss_in_send == k) ss_direct[k] ++;
+}
+static void
+stopsend_scenario(int idx) {
+	const mvar_t *v = &variants[idx];
+	static const uint32_t fl[3] = { 0, TP_MSG_F_FORCE, TP_MSG_F_FAIL_DIRECT };
+	int k, src[3];
+	tpt_p dst;
+
+	cur = v;
+	ss_target = v->W - 1;
+	tpc_stop_extra = ss_stop_extra;
+	tpc_up(v->W, 0);
+	dst = tp_thread_get(tpc_tp, (size_t)ss_target);
+	tp_shutdown(tpc_tp);
+	sc_gate_wait(&in_stop_hook, "in_stop_hook");	/* the destination is out of its loop, inside its stop hook */
+	for (k = 0; k < 3; k ++) {
+		ss_in_send = k;
+		src[k] = tpt_msg_send(dst, NULL, fl[k], ss_item_cb, (void *)(intptr_t)k);
+		ss_in_send = -1;
+	}
+	stop_gate = 1;
+	sc_wait_quiescent();
+	for (k = 0; k < 3; k ++) {
+		if (0 == src[k] && 0 == ss_runs[k]) sc_fail("message-lost", "send #%d (flags %#x) to a thread inside its stop hook reported success, never ran", k, fl[k]);
+		if (0 == src[k] && ss_runs[k] > 1) sc_fail("message-duplicated", "send #%d ran %d times", k, ss_runs[k]);
+		if (0 != src[k] && 0 != ss_runs[k]) sc_fail("failed-send-ran-callback", "send #%d returned %d, callback ran %d time(s)", k, src[k], ss_runs[k]);
+		if (ss_direct[k] && 0 == fl[k]) sc_fail("unexpected-direct-call", "send #%d without a direct-call option ran in the caller", k);
+	}
 }
